@@ -42,6 +42,7 @@ pub fn sem_layout(seed: u64, dense: bool) -> Layout {
         redundant_parens: if dense { 10 } else { 0 },
         paren_assign_rhs: true,
         paren_deviating: true,
+        trailing_commas: 0,
         seed,
     }
 }
